@@ -78,7 +78,7 @@ var primTypes = []string{"string", "bool", "int", "int8", "int16", "int32", "int
 var extraParamTypes = append(append([]string{}, primTypes...), "string", "string", "string", "string")
 var verbs = []string{"GET", "POST", "PUT", "DELETE", "PATCH"}
 var schemeNames = []string{"apiKeyAuth", "bearerAuth", "oauthAuth"}
-var scopePool = []string{"read", "write", "admin", "items:read"}
+var scopePool = []string{"read", "write", "admin", "items:read", "orders:read&write", "a<b>", "it's"}
 var literalSegs = []string{"users", "items", "a", "b-c", "v1", "x_y", "orders", "9"}
 var paramNames = []string{"id", "name", "userId", "item_id", "k"}
 var descWords = []string{"Returns", "the", "thing", "for", "given", "user", "(beta)", "ünïcode", "v2.", "items,", "and", "more"}
